@@ -74,10 +74,13 @@ CHECKS = {
               "operation circuit built by the generic code over F_5 (and F_7) is extracted, and TLC searches EVERY assignment "
               "of the assigned advice cells row by row (gates and copies prune); the invariant demands that every satisfying "
               "assignment exposes outputs = Def(inputs) with inputs in Dom, and the inputs reached must be the whole domain "
-              "(26 operation instances on quick, all of them over both fields plus sgn0 / to_le_bits on thorough)."),
+              "(26 operation instances on quick, all of them over both fields plus sgn0 / to_le_bits on thorough). "
+              "Variable-length vectors (VectorGadget over the toy field): NativeOps defines the limits, padding flags, trim, resize and "
+              "equality of AssignedVector<M, A> for every (length, alignment) layout; the driver assigns vectors of every payload length "
+              "0..M in shapes (8,2) and (12,4), exposes the buffer, limits and flags, and the trace spec demands them under the same tamper plans."),
         design_ref="DESIGN.md 4/C04",
         note=("Toy field 12289 (generic code); single consistent fault per run; MockProver judges satisfiability; the "
-              "exhaustive tiny-field assignment search of DESIGN decision 1 and the vector/map gadgets are not built."),
+              "exhaustive tiny-field search covers the algebraic operations only (lookup-heavy ones exceed it); the map gadget is not covered."),
         technique="TLA+/TLC-computed definitions over a toy field + replay of the real generic gadgets with consistent tamper plans, validated by a trace spec",
     ),
     "C05": dict(
@@ -133,7 +136,10 @@ CHECKS = {
               "above one block, adversarial non-zero filler around the data), under MockProver with message and digest exposed as "
               "public inputs. Hash_Trace recomputes the digest from the definitions on the message the circuit exposes (for "
               "SHA3/Keccak/BLAKE2b an independent crate's digest stands in for the definition), for honest runs and under tamper "
-              "plans (hook H1); the off-circuit Poseidon hash and the transcript sponge are checked against the same definition."),
+              "plans (hook H1); the off-circuit Poseidon hash and the transcript sponge are checked against the same definition. "
+              "Sponge sessions: Hashes.tla holds the sponge state machine (absorb queue, squeeze position, permutation on rate overflow); "
+              "MC_Sponge model-checks it and generates absorb/squeeze schedules, which are replayed on the CPU sponge and on the in-circuit "
+              "PoseidonChip sponge with every squeezed value exposed."),
         design_ref="DESIGN.md 4/C07",
         note=("Not covered: RIPEMD-160, the variable-length Poseidon gadget, partial-round skipping as such (only through results), "
               "the generation of the Poseidon constants; SHA3/Keccak/BLAKE2b have no TLA+ definition (reference crates); tamper plans "
@@ -352,12 +358,18 @@ CHECKS = {
               "from the check's seed over all combinators (byte classes, complemented classes, words, concatenation, "
               "union, intersection, complement, difference, star/plus, optional, exact and bounded repetition, separated "
               "lists, delimiters, markers) plus systematic compositions of iteration operators around multi-letter "
-              "loops; they are built in the real library in sugared form and given to TLC desugared."),
+              "loops; they are built in the real library in sugared form and given to TLC desugared. "
+              "In-circuit parser: for compiled automata the AutomatonChip parses accepted, rejected and boundary words under MockProver with "
+              "input and marker outputs exposed; RegexWords.tla recomputes the marker sequence from the derivative semantics and demands "
+              "'satisfiable iff in the language, markers as defined', also under tamper plans (hook H1). Base64: Base64.tla defines strict "
+              "RFC 4648 decoding (standard and URL-safe alphabets, padded and unpadded; pad-bit canonicity left open as in the RFC); the "
+              "fixed-length decoders and the variable-length decoders (Base64Vec) run on every length class, padding form and single-character "
+              "corruption, with input and output exposed, honest and tampered."),
         design_ref="DESIGN.md 4/C19",
-        note=("Language half only: the in-circuit parser, the shipped serialized automata and base64 are not covered; "
+        note=("The shipped serialized automata are not covered; the variable-length base64 output is compared prover-side (limits are bound); "
               "markers only outside intersections/complements with one fixed marker per byte; unmentioned bytes "
               "represented by one byte; undecided (timeout) expressions are not counted as passed."),
-        technique="TLA+/TLC product of derivative automaton (spec) with the extracted compiled automaton, per expression",
+        technique="TLA+/TLC product of derivative automaton (spec) with the extracted compiled automaton, per expression; trace validation of in-circuit parser and base64 runs",
     ),
     "C20": dict(
         category="fault_enumeration",
